@@ -389,6 +389,15 @@ def fixed():
         z.struct([ap(a), flat_vec(U8, "u8")], sized=False, comment=f"prefix align {a}, byte vec tail")
     for a in [1, 2, 4, 8]:
         z.struct([U8, flat_vec(ap(a), "u16")], sized=False, comment=f"u8 prefix, vec of align {a}", msg=(a == 4))
+    # every ordered pair of prefix alignments in front of a byte-aligned tail (padding before a middle field)
+    for a in aligns:
+        for b in aligns:
+            if a != b:
+                z.struct([ap(a), ap(b), flat_vec(U8, "u8")], sized=False, tuple_=(a > b), comment=f"prefix aligns {a},{b}, byte vec tail")
+    for (a, b, c) in [(1, 4, 2), (1, 8, 4), (2, 8, 1), (1, 2, 8), (4, 1, 2), (1, 16, 2)]:
+        z.struct([ap(a), ap(b), flat_vec(ap(c), "u8")], sized=False, comment=f"prefix aligns {a},{b}, tail align {c}")
+        z.enum([("unit", []), ("named", [ap(a), ap(b), flat_vec(ap(c), "u8")]), ("tuple", [ap(b), ap(a), ap(c)])], sized=False,
+               comment=f"unsized enum, three-field variants aligns {a},{b},{c}")
     unsized_struct = z.struct([U8, U16, flat_vec(U64, "u32")], sized=False, comment="tests/unsized_struct", msg=True)
     z.struct([U32, flat_vec(U8, "u8")], sized=False, tuple_=True, comment="D3 shape: tail align < struct align", msg=True)
     z.struct([U16, flat_string("u8")], sized=False, comment="string tail", msg=True)
@@ -419,6 +428,9 @@ def fixed():
     z.enum([("tuple", [unsized_struct]), ("tuple", [U64]), ("unit", [])], sized=False, default=2, comment="unsized struct as variant tail")
     z.enum([("tuple", [e_bool, flat_vec(e_bool, "u8")]), ("unit", [])], sized=False, default=1, comment="constrained payload")
     z.enum([("tuple", [U16]), ("named", [U8, flat_vec(U8, "u8")])], sized=False, default=None, comment="unsized enum without default")
+    z.enum([("unit", []), ("unit", []), ("tuple", [flat_vec(U8, "u16")])], sized=False, default=1, comment="default is the second unit variant")
+    z.enum([("unit", []), ("tuple", [U32]), ("unit", []), ("unit", [])], sized=False, default=2, tag="u16", comment="default is a later unit variant, u16 tag")
+    z.enum([("unit", []), ("unit", []), ("unit", []), ("tuple", [U8])], default=2, comment="sized enum, default is the third unit variant")
     inner_n = z.enum([("unit", []), ("tuple", [flat_vec(U16, "u8")])], sized=False, comment="inner unsized enum")
     z.struct([U32, inner_n], sized=False, comment="unsized enum nested as struct tail", msg=True)
     z.register(flex_vec(inner_n, "u16"))
